@@ -72,9 +72,11 @@ static void ms_merge_cb(void *clos, const uint8_t *key, size_t lk, const uint8_t
 	}
 	ms_union(v0, l0, v1, l1, mv, lmv);
 }
+static int g_dupsort_token; static uint64_t g_dupsort_wrong_clos;
+#define DUPSORT_CLOS ((void *)&g_dupsort_token)
 static int dupsort_bytes(void *clos, const uint8_t *key, size_t lk, const uint8_t *v0, size_t l0, const uint8_t *v1, size_t l1)
 {
-	(void)clos;
+	if (clos != DUPSORT_CLOS) g_dupsort_wrong_clos++;       /* the comparator must get the closure it was registered with (not the merge function's) */
 	/* like memcmp-style user comparators: any negative / positive magnitude, not just -1 / +1 */
 	static const int MAG[] = {1, 1, 7, 255, 1 << 20, INT_MAX};
 	int c = key_cmp(v0, l0, v1, l1);
